@@ -13,7 +13,8 @@ From Coq Require Import ZArith NArith List Bool.
 From PydoctorVerif Require Import Base.Sexp Model.Registry Spec.RegistryInv
      Proofs.RegistryBase Proofs.RegistryProofs Proofs.RegistryReparent Proofs.RegistryFuel Proofs.RegistryTotal
      Proofs.RegistryHistory Proofs.RegistryDerived Proofs.RegistryCheck Proofs.RegistryWitness
-     Spec.C3 Model.Mro Proofs.RegistryMro Model.Implements Proofs.ImplementsProofs.
+     Spec.C3 Model.Mro Proofs.RegistryMro Model.Implements Proofs.ImplementsProofs
+     Model.RegistryIR Gen.RegistryCode Proofs.RegistryIRProofs.
 Import ListNotations.
 Local Open Scope N_scope.
 
@@ -156,6 +157,35 @@ Theorem C02_implements_inverse :
   forall z L i x,
     (In x (zpost z L (fun _ => []) i) <-> In x L /\ implements z x i) /\ NoDup (zpost z L (fun _ => []) i).
 Proof. exact implements_inverse. Qed.
+
+(* ---- the tie to the source: harness/gen/gen_c02_code.py translates the CURRENT bodies of System.addObject,
+   System.handleDuplicate (and its local function), System._remove, Documentable.reparent and
+   Documentable._handle_reparenting_pre / _post statement by statement into Gen/RegistryCode.v (fail-closed, regenerated
+   on every run); Model/RegistryIR.v interprets that code.  For EVERY state and EVERY argument the interpretation is the
+   hand-written model.  (Failures -- Python exceptions, fuel -- are `None` on both sides; `oeq` is equality of the
+   results up to pointwise equality of the store, a function.) ---- *)
+
+(* System._remove(o), Documentable._handle_reparenting_pre(), the local readd(o) of handleDuplicate and
+   Documentable._handle_reparenting_post(), started with the fuel of Registry.subtree *)
+Theorem C02_code_walks_are_model :
+  forall f o s,
+    walker_ir registry_code (S (depthb s)) f [VObj o] s =
+    match f with
+    | FRemove | FPre => option_map (set_allobj s) (remove_tree s o)
+    | FReadd | FPost => option_map (set_allobj s) (readd_tree s o)
+    | _ => None
+    end.
+Proof. intros f o s. rewrite call_walker_eq. destruct f; reflexivity. Qed.
+Theorem C02_code_remove_is_model :
+  forall s o, walker_ir registry_code (S (depthb s)) FRemove [VObj o] s = option_map (set_allobj s) (remove_tree s o).
+Proof. intros s o. exact (call_walker_eq FRemove o s). Qed.
+Theorem C02_code_handleDuplicate_is_model :
+  forall s ob fn, fullpath s ob = Some fn -> oeq (hd_ir registry_code s ob) (handle_duplicate s ob fn).
+Proof. exact handle_duplicate_ir_eq. Qed.
+Theorem C02_code_addObject_is_model : forall s ob, oeq (add_object_ir registry_code s ob) (add_object s ob).
+Proof. exact add_object_ir_eq. Qed.
+Theorem C02_code_reparent_is_model : forall s o np nn, oeq (reparent_ir registry_code s o np nn) (reparent s o np nn).
+Proof. exact reparent_ir_eq. Qed.
 
 (* ---- the guards cannot be dropped: genuine defects (known_findings/C02.json) ---- *)
 
